@@ -487,6 +487,15 @@ func (m *{{ .Name }}) MarshalJSON() ([]byte, error) {
 		if err != nil {
 			return nil, err
 		}
+		if len(key) == 0 || key[0] != '"' {
+			// An object member name must be a string: a key which isn't
+			// marshaled as a string (a number for instance) is quoted, the way
+			// encoding/json does it for the keys of a map.
+			key, err = json.Marshal(string(key))
+			if err != nil {
+				return nil, err
+			}
+		}
 		buf.Write(key)
 		buf.WriteRune(':')
 
